@@ -163,6 +163,19 @@ func runC13(c *Ctx) {
 				c.Res.Notes = append(c.Res.Notes, "cannot start "+kind+": "+err.Error())
 				continue
 			}
+			// datagrams shorter than a header are dropped without a handler; they must not be counted as work in flight
+			runts := 0
+			if kind != "tcp" && round%2 == 1 {
+				if conn, derr := net.Dial("udp", ls.addr); derr == nil {
+					runts = 1 + r.Intn(3)
+					for i := 0; i < runts; i++ {
+						conn.Write(r.Bytes(1 + r.Intn(11)))
+					}
+					conn.Close()
+					time.Sleep(20 * time.Millisecond)
+				}
+			}
+			in += fmt.Sprintf(" runts=%d", runts)
 			k := r.Intn(4)
 			var wg sync.WaitGroup
 			var replied int64
@@ -383,6 +396,7 @@ func runC13(c *Ctx) {
 	c.Pred("leaks", "no-server-goroutine-left", fmt.Sprintf("%d rounds", rounds), left == 0, fmt.Sprint(left, " goroutines still inside dns.(*Server)"), "0", true)
 	// TLS-style listener with pipelined queries
 	c13TLSPipelined(c, c.R)
+	c13OwnErrorListener(c)
 }
 
 // c13Forced: a PacketConn whose SetReadDeadline parks the reader at the refresh point; Shutdown is started
@@ -502,5 +516,63 @@ func c13Forced(c *Ctx, round int) {
 	select {
 	case <-done:
 	case <-time.After(5 * time.Second):
+	}
+}
+
+
+// ownErrListener: a listener that reports an error of its own from Accept once it is closed (as TLS-style wrappers and
+// in-memory listeners do), not net.ErrClosed.
+type ownErrListener struct {
+	net.Listener
+	closed int32
+}
+
+var errOwnClosed = fmt.Errorf("verif listener: closed")
+
+func (l *ownErrListener) Accept() (net.Conn, error) {
+	c, err := l.Listener.Accept()
+	if err != nil && atomic.LoadInt32(&l.closed) == 1 {
+		return nil, errOwnClosed
+	}
+	return c, err
+}
+func (l *ownErrListener) Close() error {
+	atomic.StoreInt32(&l.closed, 1)
+	return l.Listener.Close()
+}
+
+// c13OwnErrorListener: after Shutdown the blocked serve call returns nil whatever error the closed listener reports.
+func c13OwnErrorListener(c *Ctx) {
+	for _, variant := range []string{"tcp-wrapped", "pipe"} {
+		var l net.Listener
+		if variant == "tcp-wrapped" {
+			inner, err := net.Listen("tcp", "127.0.0.1:0")
+			if err != nil {
+				continue
+			}
+			l = &ownErrListener{Listener: inner}
+		} else {
+			l = &ownErrListener{Listener: newPipeListener()}
+		}
+		p := &srvProbe{}
+		srv := &dns.Server{Handler: p.handler(), Listener: l, ReadTimeout: time.Second}
+		st := make(chan struct{})
+		srv.NotifyStartedFunc = func() { close(st) }
+		done := make(chan error, 1)
+		go func() { done <- srv.ActivateAndServe() }()
+		select {
+		case <-st:
+		case <-time.After(2 * time.Second):
+			continue
+		}
+		res, _ := shutdownWithin(srv, 0, 3*time.Second)
+		c.Pred("lifecycle", "shutdown-returns-nil", "listener="+variant, res == "nil", res, "nil", true)
+		serveRes := "serve did not return"
+		select {
+		case e := <-done:
+			serveRes = fmt.Sprint(e)
+		case <-time.After(3 * time.Second):
+		}
+		c.Pred("lifecycle", "serve-returns-nil-own-listener-error", "listener="+variant, serveRes == "<nil>", serveRes, "<nil>", true)
 	}
 }
